@@ -25,6 +25,9 @@ CFG = {
                   "section; the cancel path's `case <-ready` is the model's no-op Cancel of a holder), not verified; the harness's schedule "
                   "forcing and quiescence detection; the verif hooks VerifKeyState / VerifEntries.  The lint checks SemMap.release (lock / deferred unlock) and, in mode 'handoff', that SemMap.acquire is one critical section handed unbroken to Weighted.acquire (look-up, entry creation and grant/enqueue under one hold of the map mutex) - the atomicity the labels of the model stand for; a lint failure sends the driver into the search mode of the harness.  The forced schedules issue one call at a time and therefore cannot put two callers inside one critical section; races inside a label are looked for by the free-running classes: stress (in-section monitor counters, cancellations racing against grants) and fresh-key-burst (every round 8..16 callers let loose from a spin barrier on a never-used key, in-section counters, VerifEntries = 0 after the round).  Deadline contexts are not generated (only explicit cancellation): the code path is the same "
                   "(ctx.Done()).  The stress class has no label trace, so for it case_accept = case_holds = the in-section monitor summary.  "
+                  "The theorems are over Z for every rwRatio >= 1; the code computes in 64-bit int: C01_Int64.v wraps every arithmetic operation of "
+                  "semaphore.go to int64 and proves the wrapped machine equal to the Z machine under the invariant for 1 <= rwRatio <= MaxInt64 "
+                  "(the sum form of the fit test is refuted at MaxInt64); the generator includes rwRatio MaxInt, MaxInt-1, MaxInt32, 2^62.  "
                   "No axioms; nothing PENDING.",
     "rule": "a forced schedule is non-trivial when at some step a caller was observed queued (waiter count > 0 on some key); a stress run "
             "when more than one reader or at least one writer was seen inside a critical section; a fresh-key-burst summary when at least one round ran; distinct = distinct "
